@@ -489,7 +489,7 @@ def r7_atomics(text, blocks, recv_pat=r"(?:[A-Za-z_]\w*)(?:\s*\.\s*(?:[A-Za-z_]\
         k += 1
     if isinstance(blocks, (list, tuple)) and k != len(blocks):
         raise Undecided("R7: %d atomic operations found, %d ghost blocks configured" % (k, len(blocks)))
-    if k == 0:
+    if k == 0 and isinstance(blocks, (list, tuple)):
         raise Undecided("R7: no atomic operation found")
     return text, k
 
